@@ -1,5 +1,6 @@
 import json
 import logging
+import os
 import os.path
 from enum import Enum
 
@@ -112,8 +113,12 @@ class TrackingBackend:
             raise TargetError(target.name) from exc
 
     def _dump_tracked_jobs(self):
-        with open(self._get_state_path(), "w") as state_file:
+        # Write to a temporary file and rename it into place, so that the state
+        # file is never left truncated if gwf is killed while writing it.
+        path = self._get_state_path()
+        with open(path + ".tmp", "w") as state_file:
             json.dump(self._tracked_jobs, state_file)
+        os.replace(path + ".tmp", path)
 
     def close(self):
         self.ops.close()
